@@ -1,12 +1,20 @@
 //! Shared helpers for the correspondence harnesses (one binary per property under src/bin).
 use std::fmt::Write as _;
 
+/// HIR -> mini-HIR projection shared by C22, C23, C12 (DESIGN Appendix A.2)
+pub mod minihir;
+
 /// splitmix64: every random choice of a run derives from one state seeded by VERIF_SEED.
 #[derive(Clone)]
 pub struct Rng(pub u64);
 impl Rng {
     pub fn new(seed: u64) -> Self {
-        Rng(seed.wrapping_mul(0x9E3779B97F4A7C15).wrapping_add(0x1234_5678_9ABC_DEF1))
+        // scramble the seed (murmur3 finaliser): with an affine initialisation consecutive seeds would give the same
+        // stream shifted by one draw
+        let mut z = seed.wrapping_add(0x1234_5678_9ABC_DEF1);
+        z = (z ^ (z >> 33)).wrapping_mul(0xFF51AFD7ED558CCD);
+        z = (z ^ (z >> 33)).wrapping_mul(0xC4CEB9FE1A85EC53);
+        Rng(z ^ (z >> 33))
     }
     pub fn next(&mut self) -> u64 {
         self.0 = self.0.wrapping_add(0x9E3779B97F4A7C15);
